@@ -26,6 +26,7 @@ def run(ctx):
     # direction B: randomly grown programs of the abstract machine (C10_Sim), judged by FPEval!Eval on the same tree
     simcfg = "C10_sim.cfg" if ctx.tier == "quick" else "C10_sim_thorough.cfg"
     D.write_params(ctx, dict(PARAMS, ObsFile="/dev/null"))
+    D.set_cfg_constant(ctx, simcfg, "Seed", ctx.seed % 1000)      # the programs are a function of the seed
     sim = D.model_check(ctx, "C10_Sim", simcfg, timeout=1800, tag="C10-sim")
     seen, simcases = set(), []
     for c in sim.records:
